@@ -64,6 +64,16 @@ type kase struct {
 	up     string // r<code>:<d>:<t> | reset | term<code>
 	mix    bool   // register sender filters interleaved with the receiver filters
 	ipDeny bool   // the request carries a client address on the ip_access block list
+	corpus bool   // fixed corpus case: kept exactly as written
+	retry  *retryPol // != nil: the forwarding route carries this retry policy and proxy_disable_retry is NOT set
+}
+
+// retryPol is a route retry policy (v2.RetryPolicy: retry_on, num_retries, status codes).
+type retryPol struct {
+	on    bool
+	n     int
+	codes []int
+	kind  string // A: retry_on, every status >= 500 | B: retry_on with a status-code list | C: policy present, retry_on off
 }
 
 func (k *kase) tok() string {
@@ -104,6 +114,17 @@ func (k *kase) tok() string {
 	if len(bi) > 0 {
 		extra = " builtin=" + strings.Join(bi, ",")
 	}
+	if k.retry != nil {
+		codes := "-"
+		if len(k.retry.codes) > 0 {
+			var cs []string
+			for _, c := range k.retry.codes {
+				cs = append(cs, fmt.Sprint(c))
+			}
+			codes = strings.Join(cs, ".")
+		}
+		extra += fmt.Sprintf(" retry=%s:%d:%s", b(k.retry.on), k.retry.n, codes)
+	}
 	return fmt.Sprintf("ch %s %s route=%s host=%s pool=%s oneway=%s body=%s trl=%s up=%s%s", j(rs), j(ss),
 		strings.Join(k.routes, ","), b(k.host), k.pool, b(k.oneway), b(k.body), b(k.trl), k.up, extra)
 }
@@ -129,7 +150,17 @@ func runCase(k *kase) string {
 		hosts = 1
 	}
 	long := px.Timeout(30 * time.Second) // no timer fires within a case
-	routes := []v2.Router{px.Route("/fwd", "c1", long)}
+	fwdOpts := []px.RouteOpt{long}
+	vars := map[string]interface{}{types.VarProxyDisableRetry: true}
+	if k.retry != nil {
+		var codes []uint32
+		for _, c := range k.retry.codes {
+			codes = append(codes, uint32(c))
+		}
+		fwdOpts = append(fwdOpts, px.Retry(k.retry.on, uint32(k.retry.n), 0, codes...))
+		vars = nil // retries are live: MOSN's retry decision sees every response that reaches onUpstreamHeaders
+	}
+	routes := []v2.Router{px.Route("/fwd", "c1", fwdOpts...)}
 	seen := map[string]bool{}
 	for _, r := range k.routes {
 		if seen[r] || r == "f" || r == "n" {
@@ -217,8 +248,8 @@ func runCase(k *kase) string {
 		Filters:         filters,
 		OneWay:          k.oneway,
 		TerminateHandle: isTerm,
-		// no retries: the C14 model has no Retry phase (MOSN retries a connection failure even without a retry policy)
-		Vars: map[string]interface{}{types.VarProxyDisableRetry: true},
+		// without a retry policy on the case: retries disabled (MOSN retries a connection failure even without a policy)
+		Vars: vars,
 	})
 	defer fixture.Close()
 	if len(builtins) > 0 {
@@ -449,6 +480,60 @@ func randEnv(r *hx.Rng, k *kase) {
 	k.mix = r.Bool()
 }
 
+// allCodes are the status codes the verdict alphabet and the real filters answer with
+var allCodes = []int{401, 403, 409, 413, 418, 429, 499}
+
+// withRetry turns a case into one whose forwarding route has a live retry policy: the statuses the filters answer with
+// are retriable under it (kind A: rewritten to 5xx; kind B: on the policy's list), the budget varies; what the UPSTREAM does
+// stays non-retriable (the model hands a retried request over to C03/C17's machine): responses below 500 / off the
+// list, a remote reset, pool overflow — a denied request never gets that far anyway.
+func withRetry(r *hx.Rng, k *kase) {
+	p := &retryPol{on: true, n: r.Pick([]int{0, 1, 2, 3}), kind: r.PickS([]string{"A", "A", "B", "B", "C"})}
+	switch p.kind {
+	case "B":
+		p.codes = append([]int{}, allCodes...)
+		if r.Chance(30) {
+			p.codes = append(p.codes, 503)
+		}
+	case "C":
+		p.on = false
+	}
+	k.retry = p
+	// deep copy before touching the scripts (the filter alphabet is shared between cases)
+	recv := make([]rfilter, len(k.recv))
+	for i, f := range k.recv {
+		recv[i] = f
+		recv[i].script = append([]verdict{}, f.script...)
+		if p.kind == "A" && f.builtin == "" {
+			for j, v := range recv[i].script {
+				if (v.act == "h" || v.act == "hb" || v.act == "t") && v.code < 500 {
+					recv[i].script[j].code = 500 + v.code%100
+				}
+			}
+		}
+	}
+	k.recv = recv
+	if k.pool == "connfail" { // retried by default
+		k.pool = "overflow"
+	}
+	var code, d, t int
+	if n, _ := fmt.Sscanf(k.up, "r%d:%d:%d", &code, &d, &t); n == 3 {
+		retriable := code >= 500
+		if p.kind == "B" {
+			retriable = false
+			for _, c := range p.codes {
+				retriable = retriable || c == code
+			}
+		}
+		if p.kind == "C" {
+			retriable = false
+		}
+		if retriable {
+			k.up = fmt.Sprintf("r404:%d:%d", d, t)
+		}
+	}
+}
+
 func randVerdict(r *hx.Rng) verdict {
 	if r.Chance(55) {
 		return verdict{"n", 0, sC}
@@ -475,10 +560,17 @@ func Run(c *hx.Ctx) {
 	// thorough run (seeds s*1000+k) do not fall into step
 	rng := c.Rng.Fork().Fork()
 	var cases []*kase
-	add := func(k *kase) { cases = append(cases, k) }
+	add := func(k *kase) {
+		// a third of the generated cases (not the corpus, which has routes set by hand before) run with a live retry policy
+		if k.routes != nil && !k.corpus && rng.Chance(34) {
+			withRetry(rng, k)
+		}
+		cases = append(cases, k)
+	}
 	plain := func(k *kase) *kase {
 		k.routes, k.host, k.pool, k.up = []string{"f"}, true, "ok", "r200:0:0"
 		k.send = sendChains[1]
+		k.corpus = true
 		return k
 	}
 
@@ -493,6 +585,24 @@ func Run(c *hx.Ctx) {
 		}
 		add(plain(&kase{recv: []rfilter{{phase: px.AfterRoute, script: append(append([]verdict{}, sc...), verdict{"n", 0, sC})}}}))
 		add(plain(&kase{recv: []rfilter{{phase: px.AfterRoute, script: append(append([]verdict{}, sc...), verdict{"h", 403, sS})}}}))
+	}
+
+	// a local reply on a route with a live retry policy (the filter's status is retriable, budget left) must not be
+	// retried upstream: every receive phase x every way of answering, under "every 5xx" and under a status-code list
+	for _, ph := range []px.Phase{px.BeforeRoute, px.AfterRoute, px.AfterChooseHost} {
+		for _, v := range []verdict{{"h", 503, sS}, {"h", 500, sC}, {"hb", 502, sS}, {"t", 503, sC}, {"t", 504, sS}, {"d", 0, sS}, {"h", 599, sRC}} {
+			for _, n := range []int{0, 2} {
+				k := plain(&kase{recv: []rfilter{{phase: ph, script: []verdict{v, {"n", 0, sC}}}}})
+				k.retry = &retryPol{on: true, n: n, kind: "A"}
+				k.up = "r404:1:0"
+				add(k)
+			}
+		}
+		for _, v := range []verdict{{"h", 403, sS}, {"hb", 429, sC}, {"t", 499, sC}} {
+			k := plain(&kase{recv: []rfilter{{phase: ph, script: []verdict{v}}, {phase: px.AfterChooseHost, script: []verdict{{"n", 0, sC}}}}})
+			k.retry = &retryPol{on: true, n: 1, codes: append([]int{}, allCodes...), kind: "B"}
+			add(k)
+		}
 	}
 
 	// exhaustive small chains
@@ -606,6 +716,20 @@ func Run(c *hx.Ctx) {
 		c.Count("route=" + strings.Join(k.routes, ","))
 		c.Count("up=" + k.up)
 		c.Count("pool=" + k.pool)
+		if k.retry != nil {
+			c.Count("retry=" + k.retry.kind)
+			c.Count(fmt.Sprintf("retry.n=%d", k.retry.n))
+			for _, f := range k.recv {
+				for _, v := range f.script {
+					if v.act == "h" || v.act == "hb" || v.act == "t" || v.act == "d" {
+						c.Count("retry.answer." + []string{"b", "r", "c"}[f.phase] + "=" + v.act)
+						break
+					}
+				}
+			}
+		} else {
+			c.Count("retry=off")
+		}
 		for _, f := range k.recv {
 			if f.builtin != "" {
 				d := "pass"
